@@ -15,3 +15,5 @@ def run(prog, rep):
     _rc.run_hid_owner(prog, rep)
     from ..rules import r_err as _re
     _re.run_exists(prog, rep)
+    from ..rules import r_close as _rcr
+    _rcr.run_release(prog, rep)
